@@ -123,8 +123,10 @@ class TaskPool:
         if self._tasks:
             done, _ = await asyncio.wait(self._tasks, timeout=timeout, return_when=return_when)
         for task in done:
-            self._tasks.remove(task)
-            self._done.append(task)
+            # Other coroutines may be waiting on the same tasks and may have collected them already.
+            if task in self._tasks:
+                self._tasks.remove(task)
+                self._done.append(task)
         return len(done) > 0
 
 
